@@ -8,8 +8,10 @@ SYNC_ROUNDS = ["lx", "ld", "tx", "td"]
 CORO_ROUNDS = ["cx", "cd", "ca"]
 
 
-def make_case(threads, sched):
-    return {"id": 0, "lines": ["case 0 mutex"] + threads + ["sched " + " ".join(map(str, sched)), "end"]}
+def make_case(threads, sched, kind="mutex"):
+    """kind `mutexp`: the harness additionally prints a digest of the real pointer state after every operation line (suite
+    `ptr-level` of C08, compared with the pointer-level model lean/Drivers/C08P.lean)"""
+    return {"id": 0, "lines": ["case 0 " + kind] + threads + ["sched " + " ".join(map(str, sched)), "end"]}
 
 
 def random_sched(rng, n, length):
@@ -67,18 +69,18 @@ def legalise(threads):
     return out
 
 
-def gen_random(rng, count, min_t=2, max_t=4, max_rounds=3):
+def gen_random(rng, count, min_t=2, max_t=4, max_rounds=3, kind="mutex"):
     cases = []
     for _ in range(count):
         n = rng.randint(min_t, max_t)
         plain = rng.random() < 0.3
         threads = legalise([random_thread(rng, max_rounds, plain) for _ in range(n)])
         sched = random_sched(rng, n, rng.randint(0, 16 * n))
-        cases.append(make_case(threads, sched))
+        cases.append(make_case(threads, sched, kind))
     return cases
 
 
-def gen_exhaustive_pairs(length=13, rounds=1):
+def gen_exhaustive_pairs(length=13, rounds=1, kind="mutex"):
     """all schedules of the given length for every pair of contender shapes; pairs that involve a shape of the ownership layer
     (shared slot, callback, hand-over-hand, move, blocking lock inside a coroutine) are enumerated two steps shorter"""
     cases = []
@@ -88,7 +90,7 @@ def gen_exhaustive_pairs(length=13, rounds=1):
         threads = legalise(["t %s %s" % (a[0], " ".join([a[1]] * rounds)), "t %s %s" % (b[0], " ".join([b[1]] * rounds))])
         n = length if (a in old and b in old) else max(4, length - 2)
         for bits in itertools.product([0, 1], repeat=n):
-            cases.append(make_case(threads, list(bits)))
+            cases.append(make_case(threads, list(bits), kind))
     return cases
 
 
@@ -143,6 +145,35 @@ def parse(case, out):
             if len(w) >= 6 and w[2].startswith("a") and w[3] == "cas+" and w[5] in ("door>ptr", "ptr>ptr"):
                 info["events"].append(("publish", int(w[2][1:])))
     return info
+
+
+def parse_digests(out):
+    """the digest lines of a `mutexp` case: list of (index of the operation line it follows, req, queue, {node: next})"""
+    res = []
+    for i, l in enumerate(out):
+        if not l.startswith("p "):
+            continue
+        head, _, links = l.partition("|")
+        w = head.split()
+        d = {"req": w[1].split("=")[1], "queue": w[2].split("=")[1], "next": {}, "after": i - 1}
+        for tok in links.split():
+            n, _, nx = tok.partition(">")
+            d["next"][n] = nx
+        res.append(d)
+    return res
+
+
+def chain(d, start):
+    """follow the printed `_next` links from `start`; returns (nodes, end) with end = null | door | ? | cycle | unknown:<node>"""
+    nodes, p = [], start
+    while p not in ("null", "door", "?"):
+        if p in nodes:
+            return nodes, "cycle"
+        if p not in d["next"]:
+            return nodes, "unknown:" + p
+        nodes.append(p)
+        p = d["next"][p]
+    return nodes, p
 
 
 class MutexSuite(Suite):
